@@ -49,6 +49,11 @@ impl BlockFormatter for BlockIndentRemover {
             None => 0,
         };
         let mut current_pos = start_byte_pos + 1;
+        // The removal position is not always followed by a line break (a child range may have been
+        // merged into the opening part): do not start inside a multi-byte character.
+        while current_pos < content.len() && !content.is_char_boundary(current_pos) {
+            current_pos += 1;
+        }
         let first_indent_len = get_indent_len(content, current_pos);
         let indent_len = first_indent_len.saturating_sub(indent_ofs);
 
